@@ -64,6 +64,8 @@ def scenarios(tier):
             out.append({'name': f'extent covers every cell[{g[0]}]', 'fn': 'scn_extent_grid', 'kwargs': {'gi': gi}})
     for mi in (0, 3, 8):
         out.append({'name': f'extent covers every face[UGRID {MESH_CONFIGS[mi][0]}]', 'fn': 'scn_extent_mesh', 'kwargs': {'mi': mi}})
+    for conv, kw in (('CFGrid2D', {}), ('ShocSimple', {}), ('CFGrid2D', {'as_coords': False}), ('CFGrid1D', {'min_size': 2}), ('CFGrid2D', {'bounds': True}), ('ShocStandard', {})):
+        out.append({'name': f'making polygons / extent does not modify the dataset[{conv} {kw}]', 'fn': 'scn_frame', 'kwargs': {'conv': conv, 'kw': kw}})
     return out
 
 
@@ -325,3 +327,17 @@ def scn_extent_mesh(c, mi):
     for v in b:
         v.bound((node,))
     _within(c, b, x, y, _finite(x, y), 'a node of a face whose coordinates are all present')
+
+
+def scn_frame(c, conv, kw):
+    """Synthesising bounds (also blanking cells bound by NaN on both sides), building polygons and the extent work on copies: the
+    coordinate variables of the dataset keep their values."""
+    from pyvc.api import check_unmodified, snapshot
+    it = new_interp()
+    ds, cv = inputs.make_convention(it, c, conv, **kw)
+    snap = snapshot(ds)
+    expect_ok(c, '_make_polygons returns', lambda: method(it, cv, '_make_polygons'))
+    check_unmodified(c, ds, snap, 'the dataset (after _make_polygons)')
+    if conv in ('CFGrid1D', 'CFGrid2D', 'ShocSimple'):
+        expect_ok(c, 'bounds returns', lambda: attr(it, cv, 'bounds'))
+        check_unmodified(c, ds, snap, 'the dataset (after bounds)')
